@@ -453,7 +453,7 @@ class Tensor:
         if self.a.size != 1:
             raise RuntimeError('Boolean value of Tensor with more than one value is ambiguous')
         v = self.a.reshape(())[()]
-        return _py_bool(v)
+        return _py_bool(v != 0 if self.dtype.cat > 0 else v)
 
     def __float__(self):
         v = self.item()
@@ -674,8 +674,19 @@ class Tensor:
     def unsqueeze(self, dim):
         return unsqueeze(self, dim)
 
-    def flatten(self):
-        return reshape(self, [-1])
+    def expand_as(self, other):
+        try:
+            a = _np.broadcast_to(self.a, other.a.shape)
+        except ValueError:
+            raise RuntimeError('The expanded size of the tensor must match the existing size at a non-singleton dimension; target %s, tensor %s'
+                               % (list(other.a.shape), list(self.a.shape)))
+        return _mk(_np.array(a, dtype=object, copy=True).reshape(a.shape), self.dtype, (self,))
+
+    def flatten(self, start_dim=0, end_dim=-1):
+        return flatten(self, start_dim, end_dim)
+
+    def unflatten(self, dim, sizes):
+        return unflatten(self, dim, sizes)
 
     def clamp(self, min=None, max=None):  # noqa: A002
         return clamp(self, min, max)
@@ -1468,6 +1479,39 @@ def transpose(t, d0, d1):
     return t.transpose(d0, d1)
 
 
+def flatten(t, start_dim=0, end_dim=-1):
+    nd = t.a.ndim
+    if nd == 0:
+        return reshape(t, [1])
+    a0 = int(start_dim) % nd
+    a1 = int(end_dim) % nd
+    if a0 > a1:
+        raise RuntimeError('flatten() has invalid args: start_dim cannot come after end_dim')
+    shp = list(t.a.shape)
+    n = 1
+    for v in shp[a0:a1 + 1]:
+        n *= v
+    return reshape(t, shp[:a0] + [n] + shp[a1 + 1:])
+
+
+def unflatten(t, dim, sizes):
+    nd = t.a.ndim
+    k = int(dim) % nd
+    sizes = [int(v) for v in sizes]
+    shp = list(t.a.shape)
+    n = 1
+    neg = [i for i, v in enumerate(sizes) if v == -1]
+    for v in sizes:
+        if v != -1:
+            n *= v
+    if len(neg) == 1 and n:
+        sizes[neg[0]] = shp[k] // n
+        n *= sizes[neg[0]]
+    if n != shp[k]:
+        raise RuntimeError('unflatten: Provided sizes %s don\'t multiply up to the size of dim %d (%d) in the input tensor' % (sizes, k, shp[k]))
+    return reshape(t, shp[:k] + sizes + shp[k + 1:])
+
+
 def swapaxes(t, d0, d1):
     return t.transpose(d0, d1)
 
@@ -1922,9 +1966,10 @@ def isnan(t):
 
 
 def any(t):  # noqa: A001
+    # numbers count as true when they are non-zero (a symbolic entry is decided by the explorer)
     r = False
     for v in t.a.flat:
-        if v:
+        if _py_bool(v != 0 if t.dtype.cat > 0 else v):
             r = True
     return r
 
